@@ -33,8 +33,10 @@ THEOREMS = ['C15_tokens_of_appended_options', 'C15_keywords_prefix',
             'C15_expansion_card', 'C15_like_expansion_card',
             'C15_expansion_is_override', 'C15_expansion_deck',
             'C15_expansion_groups_complete', 'C15_explicit_card_has_density',
+            'C15_card_text_reads_back',
             'C15_importance_dictionary_linked',
-            'C15_like_importance_zero_iff_linked']
+            'C15_like_importance_zero_iff_linked',
+            'C15_like_skipped_iff_linked']
 TRUSTED = [
     'hand-written models coq/C15/Model.v and coq/C15/Canon.v (tied by '
     'execution: tie:deck, tie:split, tie:canon; sweep:canon-impl hands the '
